@@ -130,13 +130,13 @@ Opaque trim_space norm to_lower codes bytes_eqb forallb.
 Section Download.
   Variable sha256hex : bytes -> bytes.
   Variable presign_ok : bool.
-  Variable get : bytes -> s3obj.
+  Variable get : bytes -> list s3obj.
 
   Lemma stream_sound key sha size body hdr : 0 < size ->
     stream_download sha256hex get key sha size = DStream body hdr ->
-    get key = GBody body false /\ sha256hex body = sha /\ zlen body = size /\ hdr = sha.
+    first_attempt get key = GBody body false /\ sha256hex body = sha /\ zlen body = size /\ hdr = sha.
   Proof.
-    intros Hsz. unfold stream_download. destruct (get key) as [|data rerr] eqn:Hg; [discriminate|].
+    intros Hsz. unfold stream_download. destruct (first_attempt get key) as [|data rerr] eqn:Hg; [discriminate|].
     cbv zeta.
     destruct (rerr && (zlen data <? size + 1)) eqn:H1; [discriminate|].
     destruct (size <? zlen (takez (size + 1) data)) eqn:H2; [discriminate|].
@@ -166,7 +166,7 @@ Section Download.
 
   Lemma download_sound cfg q body hdr :
     download sha256hex presign_ok get cfg q = DStream body hdr ->
-    get (trim_space (q_key q)) = GBody body false /\
+    first_attempt get (trim_space (q_key q)) = GBody body false /\
     sha256hex body = norm (q_sha q) /\
     zlen body = q_size q /\
     hdr = norm (q_sha q) /\
@@ -200,7 +200,7 @@ Section Download.
     destruct pr, st; cbn [negb andb orb] in H; split_ifs H.
     Transparent stream_download.
     all: try (now inversion H).
-    all: unfold stream_download in H; destruct (get (trim_space (q_key q))); [discriminate|];
+    all: unfold stream_download in H; destruct (first_attempt get (trim_space (q_key q))); [discriminate|];
       cbv zeta in H; split_ifs H.
   Qed.
 End Download.
